@@ -15,10 +15,10 @@ VBOUND = 2 ** 20
 
 
 def shapes(tier, seed):
-    depth = 2 if tier == "quick" else 3
+    depth = 2 if tier == "quick" else 4
     out = [{"kind": "pred", "ast": p} for p in exprgen.pred_pool(depth, wide=(tier == "thorough"))]
     out += [{"kind": "expr", "ast": e} for e in exprgen.expr_pool(2 if tier == "quick" else 3)]
-    R, S = (5, 3) if tier == "quick" else (8, 4)
+    R, S = (5, 3) if tier == "quick" else (10, 5)
     for start in range(-R, R + 1):
         for stop in range(-R, R + 1):
             for step in [s for s in range(-S, S + 1) if s != 0]:
@@ -154,14 +154,14 @@ def replay(v):
 
 
 def describe(tier):
-    R, S = (5, 3) if tier == "quick" else (8, 4)
+    R, S = (5, 3) if tier == "quick" else (10, 5)
     return {
         "explanation": "Three-way verification condition per expression/predicate shape: the real iteration-engine callable run "
                        "under symx on a symbolic row, the SMT semantics of the SQLAlchemy element returned by the real "
                        "sql.Engine.convert_* (literals stay symbolic inside BindParameter), and an independent AST evaluator must "
                        "agree for all rows/literals in the value box; ranges are enumerated over a (start,stop,step) box with the "
                        "tested value symbolic.  Counterexamples are replayed on the real callable and on a real SQLite.",
-        "bounds": {"nesting depth": 2 if tier == "quick" else 3, "values/literals": f"[-{VBOUND},{VBOUND}] (64-bit safety for SQLite replays)",
+        "bounds": {"nesting depth": 2 if tier == "quick" else 4, "values/literals": f"[-{VBOUND},{VBOUND}] (64-bit safety for SQLite replays)",
                    "range start/stop": f"[-{R},{R}]", "range |step|": f"1..{S}"},
         "outside": ["NULLs, non-integer types", "integer overflow in the database", "dialects other than SQLite semantics of % (truncating)"],
         "assumptions": ["sqlmodel.expr is the SQL meaning of the emitted elements (validated against SQLite in replays)"],
